@@ -906,6 +906,14 @@ func (e *SpecEnv) evalCall(x *ECall) SV {
 				return e.evalStrKey(x) // ext_kviter.go
 			case "kvsub":
 				return e.evalKvSub(x) // ext_kviter.go
+			case "kvstr":
+				// T-KV: kvstr(s): value id of the byte string held by the Go string s (ext_kvstr.go)
+				v := e.eval(x.Args[0])
+				if fc.tc.sortOfSV(v) != "Str" {
+					e.fail("kvstr of %s", v.typ)
+				}
+				fc.eng.declareUF(fc, "kvstr", []string{"Str"}, "Int")
+				return SV{t: app("kvstr", v.t), typ: mathInt}
 			case "kvkey", "kvval":
 				// T-KV: kvkey(s) / kvval(s): abstract identity of the byte string held by s (slice or array), used as key /
 				// value of a key-value store. Uninterpreted function of (block, offset, length) exactly like bigbytes, i.e. any
@@ -1093,6 +1101,9 @@ func (e *SpecEnv) applySpecFn(sf *SpecFn, argExprs []Expr) SV {
 		ret := n.resolveType(sf.Ret)
 		var sorts, ts []string
 		for i, a := range args {
+			if isNilType(a.typ) {
+				a = n.vars[sf.Params[i].Name] // a literal nil argument: the typed zero value (a nil slice is (content, 0, 0), not a pointer)
+			}
 			ss, tt := e.uninterpArg(a, n.resolveType(sf.Params[i].Type)) // slices of leaf elements: (block content, offset, length), see ext_c34.go
 			sorts = append(sorts, ss...)
 			ts = append(ts, tt...)
